@@ -935,6 +935,11 @@ def mon_C05(run):
                     want = (run.max0, in_pool, len(row["queue"]), blocked)
                     if (mx, size, avail, waiting) != want:
                         bad.append((k, f"status() at rest = (max_size {mx}, size {size}, available {avail}, waiting {waiting}) but ground truth is {want}"))
+                if d["closed"] == "1" and all(lbl == "done" for j, (lbl, _) in others.items()):
+                    # a closed pool at rest: what is still counted are the objects in callers' hands
+                    want = (run.max0, in_pool, len(row["queue"]), 0)
+                    if (mx, size, avail, waiting) != want:
+                        bad.append((k, f"status() of the closed pool at rest = (max_size {mx}, size {size}, available {avail}, waiting {waiting}) but ground truth is {want}"))
         prev = row
         if bad:
             return bad[:1]
